@@ -17,6 +17,7 @@ from ..rules import event_facts, call_sites
 from ..mutate import mutate, remove_stmts, replace_stmt, replace_expr, parse_stmt, parse_expr
 from ..model import AnalysisError
 from ..x_scope import own_nodes
+from ..x_flow import protected
 
 TECHNIQUE = "must-pass-through (dominance with kills) on the CFG of format() + local exception-protection lint"
 EXPLANATION = (
@@ -125,7 +126,7 @@ def rule_indent(ck, fi):
             ok = True  # fast path: the text is known to contain no newline at all
         if not ok:
             # a VIOLATION needs positive evidence: the value must be traceable to expressions that are known not to indent
-            from ..x_flow import _defs_of
+            from ..x_flow import protected, _defs_of
             probe = [v] if not isinstance(v, ast.Name) else [d for _st, _pos, d in _defs_of(fi.node, v.id)]
             if v is None or any(_indenting_value(ck, x) is None and not isinstance(x, ast.Name) for x in probe):
                 raise AnalysisError("format(): the returned text goes through code that is not understood (%s)" % (q.unparse(r.ast)[:80]))
@@ -148,7 +149,7 @@ def _check_extraction(ck, h, rec):
     pm = q.parent_map(h.node)
     gm = [c for c in q.find_calls(h.node, rec + ".getMessage")]
     for c in gm:
-        hd = q.protected_by(pm, c, "Exception")
+        hd = protected(pm, c, "Exception")
         ck.ob("C45.message-guard", h, c, hd is not None, "record.getMessage() (applies caller-supplied args to the caller-supplied format) runs under a handler that catches Exception")
     is_msg = _msg_store_pred(rec)
     stores = h.cfg.stmt_nodes(is_msg)
@@ -160,7 +161,7 @@ def _check_extraction(ck, h, rec):
             ck.ob("C45.message-set", h, s_.ast, ok, "the fallback message is built by plain string formatting of reprs (nothing that re-applies the caller's format)")
         else:
             calls = [c for c in q.calls(s_.ast) if q.call_attr(c) not in ("_safe_unicode", "str", "repr")]
-            ok = q.protected_by(pm, v, "Exception") is not None if calls or isinstance(v, ast.Call) else True
+            ok = protected(pm, v, "Exception") is not None if calls or isinstance(v, ast.Call) else True
             ck.ob("C45.message-guard", h, s_.ast, ok, "the conversion of the extracted message runs under the same kind of handler")
     return len(gm), len(stores)
 
@@ -214,14 +215,14 @@ def rule_safe_unicode(ck, fi):
     pm = q.parent_map(su.node)
     # call sites of _safe_unicode in format that are not under an Exception handler rely on it never raising
     fpm = q.parent_map(fi.node)
-    outside = [c for c in q.find_calls(fi.node, "_safe_unicode", local=False) if q.protected_by(fpm, c, "Exception") is None]
+    outside = [c for c in q.find_calls(fi.node, "_safe_unicode", local=False) if protected(fpm, c, "Exception") is None]
     ck.note("_safe_unicode call sites in format() outside an Exception handler: %d" % len(outside))
     dec = [c for c in q.calls(su.node) if q.call_attr(c) in ("_unicode", "to_unicode", "decode", "str")]
     ck.floor("C45.safe-unicode", len(dec), 1, "decoding calls in _safe_unicode")
     for c in dec:
         if q.call_attr(c) == "str" and len(c.args) == 1:
             continue
-        ck.ob("C45.safe-unicode", su, c, q.protected_by(pm, c, "UnicodeDecodeError") is not None, "decoding bytes in _safe_unicode is guarded against UnicodeDecodeError (non-UTF-8 bytes must still be logged)")
+        ck.ob("C45.safe-unicode", su, c, protected(pm, c, "UnicodeDecodeError") is not None, "decoding bytes in _safe_unicode is guarded against UnicodeDecodeError (non-UTF-8 bytes must still be logged)")
     from ..x_flow import _defs_of
     TEXT_CALLS = ("_unicode", "to_unicode", "repr", "str", "ascii", "decode")
     for r in own_nodes(su.node):
